@@ -185,6 +185,7 @@ func TestVersionCases(t *testing.T) {
 	})
 	ow := newObsWriter(outp)
 	defer ow.close()
+	cw := newCaseWatch(ow, 40*time.Second)
 	workers := runtime.GOMAXPROCS(0)
 	if w, err := strconv.Atoi(os.Getenv("VERIF_WORKERS")); err == nil && w > 0 {
 		workers = w
@@ -199,7 +200,9 @@ func TestVersionCases(t *testing.T) {
 				if workers == 1 {
 					fmt.Printf("SCENARIO %s\n", c.Name)
 				}
+				cw.begin(c.Name)
 				o := runVersionCase(c, bin)
+				cw.end(c.Name)
 				ow.write(map[string]interface{}{"name": c.Name, "layer": c.Layer, "host": c.Host, "host_form": c.HostForm,
 					"served": c.Served, "served_form": c.ServedForm, "grpc_factory": c.GRPCFactory, "tokens": c.Tokens, "no_list": c.NoList, "out": o})
 			}
